@@ -34,7 +34,7 @@ pub fn check(rep: &Reporter) {
 	// the subscribe entry is explored in a second sweep (it is the only entry kind with a known finding) to keep the first complete
 	let n_main = ENTRIES.len() - 1;
 	rep.set_rule(&format!(
-		"all arrays of length 0..{maxlen} over 12 entry kinds (valid calls incl. a repeated id, notification, unknown method, bad params, invalid objects with/without id, non-object, array-encoded request, unsubscribe call, async call, custom error) and all arrays of length ≤3 that contain a subscribe call, × batch config {{Unlimited, Disabled, Limit(0), Limit(1), Limit(2)}} × {{HTTP, WS}}; plus structurally mutated batch texts; plus, for every entry kind, the entry alone vs. inside a batch (differential). Every frame of the WebSocket connection until close is collected, so a reply outside the array is observable. Distinct by (array text, config)."
+		"all arrays of length 0..{maxlen} over 12 entry kinds (valid calls incl. a repeated id, notification, unknown method, bad params, invalid objects with/without id, non-object, array-encoded request, unsubscribe call, async call, custom error) and all arrays of length ≤3 that contain a subscribe call, × batch config {{Unlimited, Disabled, Limit(0), Limit(1), Limit(2)}} × {{HTTP, WS}}; plus all arrays of length ≤2 × every config through Server::start over loopback TCP; plus structurally mutated batch texts; plus, for every entry kind, the entry alone vs. inside a batch (differential). Every frame of the WebSocket connection until close is collected, so a reply outside the array is observable. Distinct by (array text, config)."
 	));
 	rep.assume("batch entry order in the reply is not demanded (multiset comparison), as JSON-RPC allows any order");
 	let n = seq_count(n_main, maxlen);
@@ -62,6 +62,17 @@ pub fn check(rep: &Reporter) {
 			run_case(rep, local, rt, http, ws, "batch", text.as_bytes(), CONFIGS[ci], "");
 		},
 	);
+	// SRV-TCP leg: all arrays of length ≤ 2 under every batch configuration through Server::start over loopback sockets
+	{
+		let n2 = seq_count(n_main, 2);
+		par_for(rep, n2 * CONFIGS.len(), 8, srv::rt, |i, rt, local| {
+			let ci = i % CONFIGS.len();
+			let seq = seq_decode(i / CONFIGS.len(), n_main, 2);
+			let text = format!("[{}]", seq.iter().map(|k| ENTRIES[*k]).collect::<Vec<_>>().join(","));
+			let _e = rt.enter();
+			super::c01::tcp_case(rep, local, rt, "tcp-batch", text.as_bytes(), CONFIGS[ci]);
+		});
+	}
 	// arrays containing the subscribe entry (WS: the subscription must be answered inside the array only)
 	let sub = ENTRIES.len() - 1;
 	let others = [0usize, 1, 3, 7];
